@@ -40,6 +40,8 @@ WHITELIST = [
     ("src/geometry.rs", None, "cross_product", "crossProduct"),
     ("src/geometry.rs", None, "is_clock_wise_turn", "isClockWiseTurn"),
     ("src/bounding_box.rs", "BoundingBox", "contains", "bboxContains"),
+    ("src/fibonacci_hash.rs", "FastHash for FibonacciHash", "hash", "fibonacciHash"),
+    ("src/fenwick.rs", "<T: Integer + Clone + Copy + std::ops::AddAssign + std::ops::Sub<Output = T> + Ord> Fenwick<T>", "largest_power_of_two_divisor", "fenwickLsb"),
 ]
 METHOD_LEAN = {n: l for (_, t, n, l) in WHITELIST if t == "PartitionID"}
 
@@ -69,7 +71,7 @@ def find_fn(src, impl, name):
     """return (params string, return type, body string)"""
     scope = src
     if impl:
-        m = re.search(r"\nimpl\s+" + impl + r"\s*\{", src)
+        m = re.search(r"\nimpl\s*" + re.escape(impl) + r"\s*\{", src) or re.search(r"\nimpl[^\n{]*\b" + re.escape(impl.split()[-1].split("<")[0]) + r"\b[^\n{]*\{", src)
         if not m:
             raise Skip(f"impl {impl} not found")
         scope = src[m.end():]
@@ -117,6 +119,9 @@ class P:
                 ty = self.next()
                 if ty in ("i64", "i32", "i128", "isize"):
                     lhs = f"(({lhs} : Int))" if not lhs.startswith("((") else lhs
+                elif ty in ("u8", "u16", "u32") and self.env.get("__wrap__"):
+                    # narrowing cast of an unsigned value keeps the low bits
+                    lhs = f"({lhs} % {2 ** int(ty[1:])})"
                 continue
             if op not in self.PREC or self.PREC[op] < minp:
                 return lhs
@@ -211,6 +216,10 @@ class P:
                     e = f"({f} {e} {args[0]})"
                 elif f in ("try_into", "unwrap", "into") and not args:
                     pass
+                elif f == "wrapping_mul" and len(args) == 1:
+                    e = f"(({e} * {args[0]}) % 18446744073709551616)"
+                elif f == "wrapping_neg" and not args:
+                    e = f"((18446744073709551616 - {e}) % 18446744073709551616)"
                 else:
                     raise Skip(f"method .{f}()")
             else:
@@ -249,9 +258,11 @@ def translate(file, impl, name, lean):
                     env["self_" + f] = "self_" + f
                     binders.append(f"(self_{f} : Int)")
                 env["self"] = "self"
-            else:
+            elif impl == "PartitionID":
                 env["self"] = "x"
                 binders.append("(x : Nat)")
+            else:
+                env["self"] = "self"
         elif p == "&mut self":
             env["self"] = "x"
             binders.append("(x : Nat)")
@@ -272,6 +283,8 @@ def translate(file, impl, name, lean):
                 binders.append(f"({pn} : Int)")
             else:
                 raise Skip(f"parameter type {pt}")
+    if impl and impl != "PartitionID" and impl != "BoundingBox":
+        env["__wrap__"] = "1"
     if impl == "BoundingBox":
         # self.min.lat etc. are written self.min.lat in Rust: pre-flatten
         body = re.sub(r"self\.(min|max)\.(lat|lon)", r"self_\1_\2", body)
@@ -297,6 +310,20 @@ def translate(file, impl, name, lean):
             ln = f"{var}{counter}"
             lines.append(f"let {ln} := {e}")
             env[var] = ln
+        elif st[0] == "const":
+            var = st[1]
+            i = st.index("=")
+            counter += 1
+            ln = f"{var}{counter}"
+            lines.append(f"let {ln} := {P(st[i + 1:], env).expr()}")
+            env[var] = ln
+        elif len(st) > 2 and st[0] in env and st[0] != "self" and st[1] in ("<<=", ">>=", "+=", "-=", "&=", "|=", "^="):
+            op = st[1][:-1]
+            e = P(st[2:], env).expr()
+            counter += 1
+            ln = f"{st[0]}{counter}"
+            lines.append(f"let {ln} := ({env[st[0]]} {P.LEAN[op]} {e})")
+            env[st[0]] = ln
         elif st[:3] == ["self", ".", "0"] and len(st) > 3 and st[3] in ("<<=", ">>=", "+=", "-=", "&=", "|=", "^="):
             op = st[3][:-1]
             e = P(st[4:], env).expr()
@@ -327,7 +354,7 @@ def translate(file, impl, name, lean):
         if not tail:
             raise Skip("no result expression")
         result = P(tail, env).expr()
-        rty = {"bool": "Bool", "i64": "Int", "i32": "Int", "u8": "Nat", "u32": "Nat", "usize": "Nat", "PartitionID": "Nat"}.get(ret)
+        rty = {"bool": "Bool", "i64": "Int", "i32": "Int", "u8": "Nat", "u16": "Nat", "u32": "Nat", "u64": "Nat", "usize": "Nat", "PartitionID": "Nat"}.get(ret)
         if rty is None:
             raise Skip(f"return type {ret}")
     text = f"def {lean} " + " ".join(binders) + f" : {rty} :=\n"
